@@ -16,10 +16,34 @@ def build_var(P, m=None, init=None):
     (the two documented ways of giving a variable its boundary conditions)"""
     m = m or make_grid(P['name'], P['faces'])
     v = common.lay(P['init'] if init is None else init)
-    if P.get('bc_style') == 'late':
+    style = P.get('bc_style')
+    if style in ('late', 'late_explicit'):
         phi = pf.CellVariable(m, v)
         apply_bc(phi.BCs, P['bc'])
+        if style == 'late_explicit':
+            # the variable first serves as the input of an explicit step (result discarded), then goes to the implicit solver
+            pf.solveExplicitPDE(phi, 1.0, np.zeros(int(np.prod(full_shape(dims_of(P['faces']))))))
         return m, phi.BCs, phi
+    if style == 'late_c':
+        # coefficients a, b (and periodic flags) known at construction, the data c assigned later through the property setter
+        # on a variable whose state is clean - a boundary value that changes in time
+        from .common import SIDES
+        zero_c = [dict(e, **{sd: dict(e[sd], c=(np.zeros_like(np.array(e[sd]['c'], float))).tolist()) for sd in ('lo', 'hi')}) for e in P['bc']]
+        BC = apply_bc(pf.BoundaryConditions(m), zero_c)
+        phi = pf.CellVariable(m, v, BC)
+        phi.apply_BCs()
+        for ax, e in enumerate(P['bc']):
+            for sd, nm in zip(('lo', 'hi'), SIDES[ax]):
+                f = getattr(phi.BCs, nm)
+                f.c = np.array(e[sd]['c'], float).reshape(f.c.shape)
+        return m, phi.BCs, phi
+    if style == 'shared_late':
+        # one BC object, edited after the solution variable exists and before a second variable is created on it
+        BC = pf.BoundaryConditions(m)
+        phi = pf.CellVariable(m, v, BC)
+        apply_bc(BC, P['bc'])
+        pf.CellVariable(m, 0.0, BC)
+        return m, BC, phi
     BC = apply_bc(pf.BoundaryConditions(m), P['bc'])
     return m, BC, pf.CellVariable(m, v, BC)
 
@@ -173,7 +197,7 @@ def problems(draw, classes=None, nmax=4, nmax3=3, periodic=True, p_periodic=0.25
         for ax, ent in enumerate(bc):
             if is_periodic(ent):
                 faces[ax] = symmetric_ends(faces[ax])
-    P = dict(name=name, faces=faces, bc=bc, spacing=g['spacing'], bc_style=draw(st.sampled_from(['passed', 'late'])))
+    P = dict(name=name, faces=faces, bc=bc, spacing=g['spacing'], bc_style=draw(st.sampled_from(['passed', 'late', 'late_c', 'shared_late', 'late_explicit'])))
     P['init'] = draw(gen.cell_interior(d))
     P['scheme'] = draw(st.sampled_from(list(schemes)))
     P['D'] = draw(gen.diffusivity(d, zeros=False)) if (need_D or draw(st.booleans())) else None
